@@ -25,13 +25,16 @@ MANIFEST = dict(
          "and the same histories are sound on the current code (C03_phantom_repaired, C03_nested_moveout_repaired, "
          "C03_f10e_repaired); for the current code: a forgotten descriptor produces no event, a departed directory's watches "
          "are forgotten, no raw event below its former path (C03_forgotten_descriptor_no_event, C03_moveout_forgets, "
-         "C03_no_phantom_after_moveout); SEQUENTIAL histories are sound: along every history of covered "
-         "operations, directory move-ins and move-outs (the class ops_x1 of C01/C02) run block-wise from Inotify.__init__ "
-         "(one operation, everything read, grouped, emitted) every block delivers exactly the operation's contract "
-         "(C03_block_contract) and every event of a contract is justified by that operation (C03_contract_justified), hence "
-         "no unjustified event is delivered (C03_sound_sequential, C03_sound_sequential_from_start; instance: the former "
-         "phantom history); history-level soundness over ALL interleavings (bursts, partial reads) stays a stated "
-         "Definition (C03_sound_full_current). "
+         "C03_no_phantom_after_moveout); SEQUENTIAL histories, on the Pipeline model: for block histories (per operation AOp; ARead of the whole "
+         "kernel queue; ATick of the pairing delay; AEmit until the buffer is empty) of the class ops_x3 from pinit - covered "
+         "operations, directory move-ins, move-outs and what follows them (ops_x1 of C01/C02), and a directory renamed over an "
+         "empty directory of the tree - every block delivers exactly the operation's contract (C03_block_contract_x3), the "
+         "stream is the concatenation of the per-operation contracts block by block up to collapse (COMPLETENESS, "
+         "C03_contract_sequential) and sound_along holds: every event queued by an AEmit is justified by the operations "
+         "executed before it (SOUNDNESS, C03_sound_pipeline_sequential / C03_blocks_sound; every event of a contract is "
+         "justified by its operation: C03_contract_justified; drun-level form C03_sound_sequential); STATED ONLY "
+         "(C03_sound_full_current): soundness over all interleavings - bursts of operations before a read, partial reads, the "
+         "pairing delay not elapsed between read and emit. "
          "Pipeline model in lock-step against the real observer on the real kernel (see C01); completeness: in "
          "one-at-a-time histories the events delivered for each operation must equal the per-operation contract written "
          "from the property text; soundness: in arbitrary (also unpaced) histories every delivered event must be explained "
